@@ -1,4 +1,5 @@
 open Model
 let () = Driver.main [
   { Driver.name = "dcsim"; run = dcsim_run; judge = dcsim_judge };
+  { Driver.name = "dcrecv"; run = dcrecv_run; judge = dcrecv_judge };
 ]
